@@ -384,6 +384,17 @@ func (fv *FV) execAssign(st *State, x *ast.AssignStmt) {
 		if froms[i] != nil {
 			v = fv.convertTo(st, v, froms[i], lt, x.Pos())
 		}
+		// a map / pointer / slice variable stored into another location: both now refer to the same object
+		if len(x.Rhs) == len(x.Lhs) && len(t.path.Steps) > 0 && (v.Sort.Kind == KMap || v.Sort.Kind == KPtr) {
+			if id, ok := stripParens(x.Rhs[i]).(*ast.Ident); ok {
+				if obj, ok := fv.info.ObjectOf(id).(*types.Var); ok && st.alias[obj] == nil {
+					if st.escaped == nil {
+						st.escaped = map[types.Object]token.Pos{}
+					}
+					st.escaped[obj] = x.Pos()
+				}
+			}
+		}
 		fv.writePath(st, t.path, fv.bind(st, v, "v"), x.Pos())
 	}
 }
